@@ -303,6 +303,17 @@ func genExecHistory(r *Rng, pf execProfile) (InstD, []ReqD) {
 			rq.ExtT = int64(r.Intn(12))*1024 + 256 + int64(r.Intn(3))
 			rq.ExtKind = Pick(r, []string{"Cancel", "Deadline"})
 		}
+		if len(reqs) > 0 && r.Chance(25) {
+			// the same executor value again, this time without WithContext: whatever context the previous execution was given
+			// (a cache key, a cancellation) is not this one's
+			prev := reqs[len(reqs)-1]
+			rq.Stack, rq.NoLsn, rq.SameExec = prev.Stack, prev.NoLsn, true
+			rq.CtxKey, rq.ExtT, rq.ExtKind = -1, 0, ""
+			if hedged(rq.Stack) != hedged(stack) || len(rq.Script) == 0 {
+				rq.Script = prev.Script
+				rq.Entry = prev.Entry
+			}
+		}
 		reqs = append(reqs, rq)
 	}
 	if len(g.inst.Breakers) > 0 && r.Chance(35) {
